@@ -233,3 +233,69 @@ def check(ctx, case, A, tall, bad):
     # ---- model hook (main session): swap sequence / final idx and C vs the Lean model of the loop
     if getattr(ctx, "use_model", False) and not getattr(ctx, "search_only", False):
         pass  # MODEL HOOK: A (exact rationals of the float entries), idx, C are available here
+
+
+# =============================================================================== correspondence with the Lean model (main session)
+def _corr_cases(rng, tier):
+    n = {"quick": 150, "thorough": 2500, "search": 0}[tier]
+    return [{"kind": "corr", "N": rng.randint(3, 14), "r": rng.randint(1, 4), "seed": rng.randrange(1 << 30),
+             "tol": rng.choice([1.0, 1.05, 1.05, 1.2, 2.0]), "fill": rng.choice(["gauss", "int", "qr"])} for _ in range(n)]
+
+
+_orig_cases = cases
+_orig_run_case = run_case
+
+
+def cases(rng, tier):  # noqa: F811
+    return _orig_cases(rng, tier) + _corr_cases(rng, tier)
+
+
+def run_case(ctx, case):  # noqa: F811
+    if case.get("kind") != "corr":
+        return _orig_run_case(ctx, case)
+    import random as _r
+    import numpy as np
+    from core import q, safe
+    from tntorch.maxvol import py_maxvol
+    rng = _r.Random(case["seed"])
+    N, r, tol = case["N"], case["r"], case["tol"]
+    if N <= r:
+        N = r + 2
+    if case["fill"] == "int":
+        A = np.array([[float(rng.randint(-3, 3)) for _ in range(r)] for _ in range(N)])
+    else:
+        A = np.array([[rng.gauss(0, 1) for _ in range(r)] for _ in range(N)])
+        if case["fill"] == "qr":
+            A = np.linalg.qr(A)[0]
+    ctx.case(("corr", "maxvol", N, r, tol, case["fill"]), True, {"op": "model correspondence: swap loop of py_maxvol from the recorded LAPACK start", "N": N, "r": r, "tol": tol, "fill": case["fill"]})
+    ctx.count("corr:maxvol")
+    if not (getattr(ctx, "use_model", False) and not getattr(ctx, "search_only", False)):
+        return
+    if np.linalg.matrix_rank(A) < r:
+        ctx.count("skipped:rank-deficient"); return
+    st = safe(lambda: py_maxvol(A.copy(), tol, 0))
+    full = safe(lambda: py_maxvol(A.copy(), tol, 200))
+    if st[0] == "err" or full[0] == "err":
+        ctx.oracle("py_maxvol raised: %s" % (st if st[0] == "err" else full,), case); return
+    idx0, C0 = st[1]
+    # float replica to detect near-ties (arg-max or tolerance decided by rounding): such cases are discarded and counted
+    C = C0.T.copy()            # r x N, as stored in the code
+    for _ in range(200):
+        ab = np.abs(C)
+        flat = np.sort(ab.reshape(-1))[::-1]
+        i, j = divmod(int(ab.argmax()), N)
+        if abs(flat[0] - tol) <= 1e-9 * max(1.0, flat[0]) or (len(flat) > 1 and flat[0] - flat[1] <= 1e-9 * max(1.0, flat[0]) and flat[0] > tol):
+            ctx.count("discarded:near-tie"); return
+        if not ab[i, j] > tol:
+            break
+        col = C[:, j].copy(); col[i] -= 1.0
+        C = C - np.outer(col, C[i]) / C[i, j]
+    Cs = C0.T
+    line = "maxvol %d %d %s %d %s %d %s" % (r, N, q(tol), 200, " ".join(q(v) for v in Cs.reshape(-1)), r, " ".join(str(int(v)) for v in idx0))
+    toks = ctx.drv().call(line)
+    if toks[0] != "ok":
+        ctx.corr("model maxvol failed: %s" % " ".join(toks[:4]), case); return
+    k = int(toks[1])
+    midx = [int(v) for v in toks[2:2 + k]]
+    if midx != [int(v) for v in full[1][0]]:
+        ctx.corr("py_maxvol returned rows %s, the model's swap loop from the same start gives %s" % (list(full[1][0]), midx), case)
